@@ -17,12 +17,14 @@ import (
 	"sort"
 	"strings"
 	"testing"
+	"time"
 
 	"github.com/beevik/etree"
 	"github.com/openconfig/ygot/ygot"
 	"github.com/sdcio/data-server/mocks/mockcacheclient"
 	"github.com/sdcio/data-server/mocks/mockschemaclientbound"
 	"github.com/sdcio/data-server/pkg/cache"
+	"github.com/sdcio/data-server/pkg/config"
 	"github.com/sdcio/data-server/pkg/utils"
 	"github.com/sdcio/data-server/pkg/utils/testhelper"
 	sdcio_schema "github.com/sdcio/data-server/tests/sdcioygot"
@@ -531,6 +533,26 @@ const vreYang2 = `module vrpresence {
         leaf bl { type string; }
       }
     }
+  }
+  container val {
+    leaf on { type string; }
+    leaf size { type int32; must ". > 5"; }
+    leaf dec { type decimal64 { fraction-digits 2; } must ". > 1.5"; }
+    leaf neg { type int8; }
+    leaf negcheck { type string; must "../neg < 0"; }
+    leaf usize { type uint32; must ". > 5"; }
+    list sub {
+      key id;
+      leaf id { type uint32; }
+      leaf kind { type string; }
+    }
+    leaf subid { type uint32; }
+    leaf subkind { type leafref { path "/vrp:val/vrp:sub[vrp:id=current()/../vrp:subid]/vrp:kind"; } }
+  }
+  container dr {
+    leaf on { type string; }
+    leaf target { type string; }
+    leaf dflt-ref { type leafref { path "../target"; } default "nope"; }
   }
 }
 `
@@ -1073,4 +1095,100 @@ func TestVerifReplayNestedChoice(t *testing.T) {
 	for _, fn := range fns {
 		fmt.Printf("REPLAY-CASES fn=%s n=%d\n", fn, n)
 	}
+}
+
+// TestVerifReplaySchema2Validation: bounded stand-in for constraint kinds of C04 the repository's test schema has no
+// node for: must expressions over signed and decimal values, a leafref whose path predicate is fed from a number, a
+// leafref with a default. The verdict of root.Validate against a hand-written expectation.
+func TestVerifReplaySchema2Validation(t *testing.T) {
+	fn := "(*tree.RootEntry).Validate"
+	str := func(x string) *sdcpb.TypedValue {
+		return &sdcpb.TypedValue{Value: &sdcpb.TypedValue_StringVal{StringVal: x}}
+	}
+	i := func(x int64) *sdcpb.TypedValue { return &sdcpb.TypedValue{Value: &sdcpb.TypedValue_IntVal{IntVal: x}} }
+	u := func(x uint64) *sdcpb.TypedValue {
+		return &sdcpb.TypedValue{Value: &sdcpb.TypedValue_UintVal{UintVal: x}}
+	}
+	dec := func(digits int64, prec uint32) *sdcpb.TypedValue {
+		return &sdcpb.TypedValue{Value: &sdcpb.TypedValue_DecimalVal{DecimalVal: &sdcpb.Decimal64{Digits: digits, Precision: prec}}}
+	}
+	type pv struct {
+		p []string
+		v *sdcpb.TypedValue
+	}
+	scenarios := []struct {
+		name  string
+		fns   []string
+		conf  []pv
+		valid bool
+	}{
+		{"must '. > 5' on a uint32 of 10", nil, []pv{{[]string{"val", "usize"}, u(10)}}, true},
+		{"must '. > 5' on a uint32 of 3", nil, []pv{{[]string{"val", "usize"}, u(3)}}, false},
+		{"must '. > 5' on an int32 of 10", []string{"(*tree.yangParserEntryAdapter).valueToDatum"}, []pv{{[]string{"val", "size"}, i(10)}}, true},
+		{"must '. > 5' on an int32 of -10", []string{"(*tree.yangParserEntryAdapter).valueToDatum"}, []pv{{[]string{"val", "size"}, i(-10)}}, false},
+		{"must '. > 1.5' on a decimal64 of 2.50", []string{"(*tree.yangParserEntryAdapter).valueToDatum"}, []pv{{[]string{"val", "dec"}, dec(250, 2)}}, true},
+		{"must '. > 1.5' on a decimal64 of 1.25", []string{"(*tree.yangParserEntryAdapter).valueToDatum"}, []pv{{[]string{"val", "dec"}, dec(125, 2)}}, false},
+		{"must '../neg < 0' with an int8 of -4", []string{"(*tree.yangParserEntryAdapter).valueToDatum"}, []pv{{[]string{"val", "neg"}, i(-4)}, {[]string{"val", "negcheck"}, str("x")}}, true},
+		{"must '../neg < 0' with an int8 of 4", []string{"(*tree.yangParserEntryAdapter).valueToDatum"}, []pv{{[]string{"val", "neg"}, i(4)}, {[]string{"val", "negcheck"}, str("x")}}, false},
+		{"leafref with a predicate fed from a uint32 leaf, target exists", []string{"(*tree.sharedEntryAttributes).resolve_leafref_key_path", "(*tree.sharedEntryAttributes).NavigateLeafRef", "(*tree.sharedEntryAttributes).validateLeafRefs"},
+			[]pv{{[]string{"val", "sub", "7", "id"}, u(7)}, {[]string{"val", "sub", "7", "kind"}, str("k7")}, {[]string{"val", "subid"}, u(7)}, {[]string{"val", "subkind"}, str("k7")}}, true},
+		{"leafref with a predicate fed from a uint32 leaf, target is another entry's", []string{"(*tree.sharedEntryAttributes).resolve_leafref_key_path", "(*tree.sharedEntryAttributes).NavigateLeafRef", "(*tree.sharedEntryAttributes).validateLeafRefs"},
+			[]pv{{[]string{"val", "sub", "7", "id"}, u(7)}, {[]string{"val", "sub", "7", "kind"}, str("k7")}, {[]string{"val", "sub", "3", "id"}, u(3)}, {[]string{"val", "sub", "3", "kind"}, str("k3")}, {[]string{"val", "subid"}, u(3)}, {[]string{"val", "subkind"}, str("k7")}}, false},
+		{"leafref with a default that resolves", []string{"(*tree.sharedEntryAttributes).validateLeafRefs"}, []pv{{[]string{"dr", "on"}, str("x")}, {[]string{"dr", "target"}, str("nope")}}, true},
+		{"leafref with a default that does not resolve", []string{"(*tree.sharedEntryAttributes).validateLeafRefs"}, []pv{{[]string{"dr", "on"}, str("x")}}, false},
+	}
+	n := 0
+	for _, sc := range scenarios {
+		n++
+		ctx := context.Background()
+		mockCtrl := gomock.NewController(t)
+		scb := vreSchema2(t, mockCtrl)
+		ccMock := mockcacheclient.NewMockClient(mockCtrl)
+		testhelper.ConfigureCacheClientMock(t, ccMock, []*cache.Update{}, []*cache.Update{}, []*cache.Update{}, [][]string{})
+		root, err := NewTreeRoot(ctx, NewTreeContext(NewTreeCacheClient("dev1", ccMock), scb, "owner1"))
+		if err != nil {
+			t.Fatal(err)
+		}
+		fNew := NewUpdateInsertFlags()
+		fNew.SetNewFlag()
+		for _, x := range sc.conf {
+			b, _ := proto.Marshal(x.v)
+			if _, err := root.AddCacheUpdateRecursive(ctx, cache.NewUpdate(x.p, b, 5, "owner1", 0), fNew); err != nil {
+				t.Fatal(err)
+			}
+		}
+		root.FinishInsertionPhase(ctx)
+		fns := append([]string{fn}, sc.fns...)
+		type verdict struct {
+			errs  []string
+			panic any
+		}
+		done := make(chan verdict, 1)
+		go func() {
+			defer func() {
+				if r := recover(); r != nil {
+					done <- verdict{panic: r}
+				}
+			}()
+			done <- verdict{errs: root.Validate(ctx, &config.Validation{DisableConcurrency: true}).ErrorsStr()}
+		}()
+		select {
+		case v := <-done:
+			if v.panic != nil {
+				for _, f := range fns {
+					fmt.Printf("REPLAY-FAIL fn=%s clause=panic input=schema=stand-in,configuration=%s panic=%v\n", f, sc.name, v.panic)
+				}
+			} else if (len(v.errs) == 0) != sc.valid {
+				for _, f := range fns {
+					fmt.Printf("REPLAY-FAIL fn=%s clause=verdict_is_validity_of_the_result input=schema=stand-in,configuration=%s why=%d error(s) %v, the configuration is valid=%v\n", f, sc.name, len(v.errs), v.errs, sc.valid)
+				}
+			}
+		case <-time.After(10 * time.Second):
+			for _, f := range fns {
+				fmt.Printf("REPLAY-FAIL fn=%s clause=hang input=schema=stand-in,configuration=%s why=no verdict after 10 s\n", f, sc.name)
+			}
+		}
+		mockCtrl.Finish()
+	}
+	fmt.Printf("REPLAY-CASES fn=%s n=%d\n", fn, n)
 }
